@@ -112,6 +112,42 @@ theorem C20_inter_chain_single (preds : List (List R)) (obs : List R) (chains : 
 
 end evaluation
 
+private theorem nodup_eraseDups_int : ∀ (l : List Int), l.eraseDups.Nodup
+  | [] => by simp
+  | a :: as => by
+    rw [List.eraseDups_cons]
+    have ih := nodup_eraseDups_int (as.filter fun b => !b == a)
+    rw [List.nodup_cons]
+    refine ⟨?_, ih⟩
+    simp [List.mem_eraseDups, List.mem_filter]
+termination_by l => l.length
+decreasing_by exact Nat.lt_succ_of_le (List.length_filter_le _ _)
+
+/-- the chains the loop of `inter_chain_mse_variance` visits: every label that occurs, each exactly once
+    (so the variance is over one MSE per chain, whatever the order, lengths or gaps of the labelling),
+    and the columns averaged for label `c` are exactly the posterior samples labelled `c` -- wherever
+    they stand in the matrix (interleaved, descending, shuffled labellings included). -/
+theorem C20_chain_labels (chains : List Int) :
+    (uniqueSorted chains).Nodup
+    ∧ (∀ c, c ∈ uniqueSorted chains ↔ c ∈ chains)
+    ∧ (∀ c k, k ∈ chainCols chains c ↔ k < chains.length ∧ chains.getD k 0 = c)
+    ∧ (∀ k, k < chains.length → ∃ c ∈ uniqueSorted chains, k ∈ chainCols chains c) := by
+  have hmem : ∀ c, c ∈ uniqueSorted chains ↔ c ∈ chains := fun c => mem_uniqueSorted chains c
+  have hcols : ∀ c k, k ∈ chainCols chains c ↔ k < chains.length ∧ chains.getD k 0 = c := by
+    intro c k
+    simp [chainCols]
+  refine ⟨?_, hmem, hcols, ?_⟩
+  · unfold uniqueSorted
+    exact (List.mergeSort_perm _ _).nodup_iff.mpr (nodup_eraseDups_int chains)
+  · intro k hk
+    refine ⟨chains.getD k 0, (hmem _).mpr ?_, (hcols _ k).mpr ⟨hk, rfl⟩⟩
+    simp [List.getD_eq_getElem?_getD, hk]
+
+/-- a labelling that is not sorted contiguous blocks: chain 0 = columns {0, 2}, chain 4 = column {1} -/
+example : chainCols [0, 4, 0] 0 = [0, 2] ∧ chainCols [0, 4, 0] 4 = [1] := by
+  refine ⟨by decide, by decide⟩
+
+
 /-- `Shape` is inhabited by a non-square instance with chains of unequal length, where the
     definitions separate: variance across experiments (axis 1) 64, the wrong axis would give 2114/9;
     chains {0,1},{2} give 3721/16, the grouping {0},{1,2} would give 625/4. -/
@@ -515,5 +551,24 @@ theorem C20_corr_unit_diagonal_real (P : List (List ℝ)) (i : Nat) (hi : i < P.
 
 /-- the non-degeneracy hypothesis is satisfiable (two samples, two combinations) -/
 example : sumL (((center ([[1, 2], [3, 0]] : List (List Rat))).getD 0 []).map Metrics.sq) = 2 := by decide +kernel
+
+
+/-! ## 6. `retrospective.calculate_mse` -/
+
+/-- `calculate_mse`: `np.mean((avg_predictions - observations) ** 2)` is the mean over the experiments
+    of the squared difference between the AVERAGED prediction and the observation (the averaged
+    prediction itself is `predictAvg`, characterised by `C09_avg_is_mean`). -/
+theorem C20_calculate_mse {R : Type} [Field R] (avg obs : List R) (n : Nat) (ha : avg.length = n) (ho : obs.length = n) :
+    calculateMse avg obs = sumRange n (fun i => Metrics.sq (avg.getD i 0 - obs.getD i 0)) / (n : R) := by
+  have hv : IsVec (List.zipWith (fun p o => Metrics.sq (p - o)) avg obs) n
+      (fun i => Metrics.sq (avg.getD i 0 - obs.getD i 0)) := by
+    refine ⟨by simp [ha, ho], ?_⟩
+    intro i hi
+    have h1 : i < avg.length := by rw [ha]; exact hi
+    have h2 : i < obs.length := by rw [ho]; exact hi
+    simp [List.getD_eq_getElem?_getD, h1, h2]
+  simp only [calculateMse, hv.mean]
+
+example : calculateMse ([1, 3] : List Rat) [0, 1] = 5 / 2 := by decide +kernel
 
 end Batchie.Props.C20
